@@ -777,7 +777,7 @@ func TestVerifHarnessC16(t *testing.T) {
 	}
 	// the command line tool (child processes are slower: fewer combinations in the quick bound)
 	cliWriters := writers[:1]
-	cliExisting := existing[:3]
+	cliExisting := existing[:5]
 	if bound == "thorough" {
 		cliWriters = writers
 		cliExisting = existing
@@ -811,7 +811,7 @@ func TestVerifHarnessC16(t *testing.T) {
 		}
 	}
 	// reopen sequences with random options
-	nSeq := 40
+	nSeq := 200
 	if bound == "thorough" {
 		nSeq = 1200
 	}
